@@ -243,6 +243,46 @@ def check_big(inp):
     return None
 
 
+def check_empty(inp):
+    """A structure with NO states (Kripke(), or get_substructure of an empty set - e.g. of an empty
+    modelcheck result) is vacuously total: every query returns the empty set, a new one each time."""
+    from pyModelChecking.kripke import Kripke
+    try:
+        if inp['how'] == 'ctor':
+            K = Kripke()
+        elif inp['how'] == 'ctor-empty-args':
+            K = Kripke(S=[], S0=[], R=[], L={})
+        else:
+            K0 = Kripke(S=['s', 't'], R=[('s', 't'), ('t', 't')], L={'s': ['p']})
+            K = K0.get_substructure(set())
+    except Exception as e:
+        return Failure('empty', inp, 'the empty structure can be built', 'raised %s: %s' % (type(e).__name__, str(e)[:150]))
+    checker = inp['checker']
+    L = fm.lang(checker)
+    f = fm.from_json(inp['f'])
+    top = ('A', f) if checker == 'LTL' else f
+    arg = fm.to_text(top) if inp.get('text') else fm.to_lib(top, L)
+    last = None
+    for rnd in (1, 2):
+        try:
+            with core.quiet():
+                r = L.modelcheck(K, arg)
+        except Exception as e:
+            return Failure('empty', inp, 'the empty set', 'raised %s: %s' % (type(e).__name__, str(e)[:150]), 'call %d' % rnd)
+        if not isinstance(r, set) or r:
+            return Failure('empty', inp, 'the empty set', repr(r)[:100], 'call %d' % rnd)
+        if r is last:
+            return Failure('empty', inp, 'a new set object per call', 'the same object twice')
+        last = r
+        r.add('junk')
+    return None
+
+
+EMPTY_FORMULAS = {'CTL': [fm.P, ('A', ('G', fm.P)), ('E', ('U', fm.P, fm.Q)), ('not', ('E', ('X', fm.TRUE))), ('A', ('F', ('E', ('G', fm.Q))))],
+                  'CTLS': [('A', ('G', ('F', fm.P))), ('E', ('U', fm.P, ('X', fm.Q))), ('A', ('G', ('E', ('F', fm.P)))), fm.TRUE, ('not', ('E', ('X', fm.P)))],
+                  'LTL': [('G', ('F', fm.P)), ('U', fm.P, fm.Q), fm.P, ('X', fm.TRUE)]}
+
+
 def big_shard(st, shard, nshards, payload):
     i = -1
     for shape in km.BIG_SHAPES:
@@ -266,7 +306,7 @@ def big_shard(st, shard, nshards, payload):
                     return
 
 
-CHECKS = {'query': check_query, 'big': check_big}
+CHECKS = {'query': check_query, 'big': check_big, 'empty': check_empty}
 
 
 def replay(ctx, rec):
@@ -359,6 +399,18 @@ def run(ctx):
     if f is not None:
         ctx.violation(f)
         return
+    ctx.scopes.append('the structure with no states (Kripke(), Kripke with empty arguments, get_substructure of the empty set) x 14 queries x object/text')
+    for how in ('ctor', 'ctor-empty-args', 'substructure'):
+        for checker, fs in sorted(EMPTY_FORMULAS.items()):
+            for fi, f in enumerate(fs):
+                for text in (False, True):
+                    inp = {'how': how, 'checker': checker, 'f': f, 'text': text}
+                    ctx.stats.evaluations += 1
+                    ctx.stats.bump('empty structure')
+                    r = check_empty(inp)
+                    if r is not None:
+                        ctx.violation(r)
+                        return
     bp = {'Ns': ctx.pick([350, 1300], [150, 700, 1300, 3100]), 'other_max': ctx.pick(350, 1300)}
     ctx.scopes.append('size: 8 shapes (timer, countdown, ring, lollipop, ladder, tree, two rings, fan) with %s states x 13 queries '
                       '(CTL; CTL* and LTL up to %d states), string / tuple / int state names' % ([n_ + 1 for n_ in bp['Ns']], bp['other_max'] + 1))
